@@ -19,6 +19,9 @@ ASSUME PrintT(ToJson([table |-> "patterns", rows |-> PatTable]))
 ASSUME PrintT(ToJson([table |-> "timezones", rows |-> TzTable]))
 ASSUME PrintT(ToJson([table |-> "times", rows |-> TimeTable]))
 ASSUME PrintT(ToJson([table |-> "durations", rows |-> DurationTable]))
+ASSUME GregLaws("1.0") /\ GregLaws("1.1")
+ASSUME PrintT(ToJson([table |-> "greg10", rows |-> GregTable("1.0")]))
+ASSUME PrintT(ToJson([table |-> "greg11", rows |-> GregTable("1.1")]))
 ASSUME PrintT(ToJson([table |-> "hex", rows |-> HexTable]))
 ASSUME PrintT(ToJson([table |-> "base64", rows |-> B64Table]))
 =============================================================================
